@@ -18,8 +18,15 @@ use rand_chacha::ChaCha8Rng;
 use zksync_concurrency::verif;
 
 thread_local! {
+    /// Owner tag of the task whose inner future is being polled right now (0 = none / director).
+    static CUR_TAG: Cell<u64> = const { Cell::new(0) };
     static PARKS: Cell<u64> = const { Cell::new(0) };
     static PARK_WAKER: RefCell<Option<Waker>> = const { RefCell::new(None) };
+}
+
+/// Owner tag of the task being polled (see `Sched::set_spawn_tag`).
+pub fn current_tag() -> u64 {
+    CUR_TAG.with(|c| c.get())
 }
 
 /// Called by tokio when the run queue is empty.
@@ -109,6 +116,7 @@ impl verif::Scheduler for GateSched {
             i.ready.retain(|(x, _)| *x != id);
             i.current = Some(id);
             i.last_tag = i.tags.get(&id).copied().unwrap_or(0);
+            CUR_TAG.with(|c| c.set(i.last_tag));
             return true;
         }
         if let Some(e) = i.ready.iter_mut().find(|(x, _)| *x == id) {
@@ -122,6 +130,7 @@ impl verif::Scheduler for GateSched {
     }
     fn after_poll(&self, _id: u64, _done: bool) {
         self.inner.borrow_mut().current = None;
+        CUR_TAG.with(|c| c.set(0));
     }
     fn task_dropped(&self, id: u64) {
         let mut i = self.inner.borrow_mut();
